@@ -49,7 +49,7 @@ static void prop(Tape &t, Ctx &c) {
         }
         if (rc >= 0) {
             for (psX509Cert_t *x = certs; x; x = x->next) {
-                VF_CHECK(++ncerts < 10000, "walker-list-cycle", "cert chain does not end");
+                VF_CHECK((size_t) ++ncerts <= 2 * in.n + 2, "walker-list-cycle", "cert chain has more elements than the input has bytes");
                 C09_REGION(x, sizeof *x, "cert-node");
                 if (x->parseStatus != PS_X509_PARSE_SUCCESS) continue;
                 nok++;
